@@ -248,6 +248,45 @@ impl HttpFixture {
         Self::finish(api.process_request(&req).await).await
     }
 
+    async fn finish_full(
+        res: Option<hyper::Response<Body>>,
+    ) -> Option<(u16, Option<Vec<u8>>, Vec<u8>)> {
+        let res = res?;
+        let status = res.status().as_u16();
+        let ctype = res
+            .headers()
+            .get(hyper::header::CONTENT_TYPE)
+            .map(|v| v.as_bytes().to_vec());
+        let body = hyper::body::to_bytes(res.into_body()).await.ok()?;
+        Some((status, ctype, body.to_vec()))
+    }
+
+    /// `RouterListApi::process_request` for `GET <uri>`: status, the
+    /// Content-Type header (if any) and the body of whatever it answers.
+    pub async fn get_list_full(
+        &self,
+        uri: &str,
+    ) -> Option<(u16, Option<Vec<u8>>, Vec<u8>)> {
+        let req = Self::request(uri)?;
+        Self::finish_full(self.list_api.process_request(&req).await).await
+    }
+
+    /// `RouterInfoApi::process_request` of the given router for `GET <uri>`:
+    /// status, Content-Type header (if any), body.
+    pub async fn get_info_full(
+        &self,
+        id: IngressId,
+        uri: &str,
+    ) -> Option<(u16, Option<Vec<u8>>, Vec<u8>)> {
+        let req = Self::request(uri)?;
+        let api = self
+            .info_apis
+            .iter()
+            .find(|(i, _, _)| *i == id)
+            .map(|(_, a, _)| a.clone())?;
+        Self::finish_full(api.process_request(&req).await).await
+    }
+
     /// The Prometheus exposition of the unit's two metrics sources.
     pub fn metrics_prometheus(&self, unit_name: &str) -> String {
         let mut target = Target::new(OutputFormat::Prometheus);
